@@ -26,6 +26,7 @@ import (
 	"github.com/foxboron/go-uefi/efivar"
 	"github.com/foxboron/go-uefi/efivarfs/fswrapper"
 	"github.com/foxboron/go-uefi/pkcs7"
+	"golang.org/x/crypto/cryptobyte"
 )
 
 func init() {
@@ -76,6 +77,14 @@ func imageOps(id any, b []byte, cert string) {
 }
 
 func signatureOps(id any, b []byte) {
+	record(id, "sig.ParseContentInfo+AlgorithmIdentifier", len(b), func() error {
+		s := cryptobyte.String(b)
+		_, c, err := pkcs7.ParseContentInfo(&s)
+		s2 := cryptobyte.String(b)
+		pkcs7.ParseAlgorithmIdentifier(&s2)
+		pkcs7.ParseAlgorithmIdentifier(&c)
+		return err
+	})
 	record(id, "sig.ParsePKCS7+Verify", len(b), func() error {
 		p, err := pkcs7.ParsePKCS7(b)
 		if err != nil {
@@ -168,6 +177,50 @@ var varEntries = map[string]func([]byte) error{
 type onlyReader struct{ r io.Reader }
 
 func (o onlyReader) Read(p []byte) (int, error) { return o.r.Read(p) }
+
+// further entry points: the two-step load-option decoder, the device-path sub-decoders called directly (first four bytes of the
+// input are the node header), key / certificate files read from disk
+func init() {
+	varEntries["loadopt.parse"] = func(b []byte) error {
+		buf := bytes.NewBuffer(b)
+		if _, err := device.ParseEFILoadOption(buf); err != nil {
+			return err
+		}
+		_, err := device.ParseDevicePath(buf)
+		return err
+	}
+	sub := func(f func(io.Reader, *device.EFIDevicePath) device.EFIDevicePaths) func([]byte) error {
+		return func(b []byte) error {
+			var h device.EFIDevicePath
+			if len(b) < 4 {
+				return nil
+			}
+			h.Type, h.SubType, h.Length = device.DevicePathType(b[0]), device.DevicePathSubType(b[1]), [2]uint8{b[2], b[3]}
+			if n := f(bytes.NewReader(b[4:]), &h); n != nil {
+				n.Format()
+			}
+			return nil
+		}
+	}
+	varEntries["devnode.acpi"] = sub(device.ParseACPIDevicePath)
+	varEntries["devnode.hw"] = sub(device.ParseHardwareDevicePath)
+	varEntries["devnode.msg"] = sub(device.ParseMessagingDevicePath)
+	varEntries["devnode.media"] = sub(func(r io.Reader, h *device.EFIDevicePath) device.EFIDevicePaths { n, _ := device.ParseMediaDevicePath(r, h); return n })
+	file := func(f func(string) error) func([]byte) error {
+		return func(b []byte) error {
+			tf, err := os.CreateTemp("", "verif-pem-")
+			if err != nil {
+				panic("harness: " + err.Error())
+			}
+			defer os.Remove(tf.Name())
+			tf.Write(b)
+			tf.Close()
+			return f(tf.Name())
+		}
+	}
+	varEntries["keyfile"] = file(func(p string) error { _, err := util.ReadKeyFromFile(p); return err })
+	varEntries["certfile"] = file(func(p string) error { _, err := util.ReadCertFromFile(p); return err })
+}
 
 func init() {
 	varEntries["sigdb@opaque"] = func(b []byte) error { _, err := signature.ReadSignatureDatabase(onlyReader{bytes.NewReader(b)}); return err }
@@ -391,7 +444,26 @@ func seedInput(entry string, n int) []byte {
 	case "wincert", "wincertguid":
 		b := rd("tests/data/signatures/varsign/PK.auth", 16)
 		return b
-	case "loadopt":
+	case "devnode.acpi", "devnode.hw", "devnode.msg", "devnode.media":
+		b := seedInput("devpath", n)
+		// the node of the seed path whose type matches, else the first one
+		want := map[string]byte{"devnode.hw": 1, "devnode.acpi": 2, "devnode.msg": 3, "devnode.media": 4}[entry]
+		for p := 0; p+4 <= len(b); {
+			l := int(b[p+2]) | int(b[p+3])<<8
+			if l < 4 || p+l > len(b) {
+				break
+			}
+			if b[p] == want {
+				return b[p : p+l]
+			}
+			p += l
+		}
+		return b
+	case "keyfile":
+		return seedInput("key", n)
+	case "certfile":
+		return seedInput("cert", n)
+	case "loadopt", "loadopt.parse":
 		fs := []string{"tests/data/boot/Boot0001-8be4df61-93ca-11d2-aa0d-00e098032b8c", "tests/data/boot/Boot0000-8be4df61-93ca-11d2-aa0d-00e098032b8c", "tests/data/boot/Boot0017-8be4df61-93ca-11d2-aa0d-00e098032b8c", "tests/data/boot/Boot001A-8be4df61-93ca-11d2-aa0d-00e098032b8c"}
 		return rd(fs[n%4], 4)
 	case "devpath":
